@@ -369,6 +369,16 @@ def rule_lcs(ck, facts):
     # the two cursors: locals compared with 0 in the loop header condition
     n_iter = 0
     kinds_seen = set()
+    common_paths = 0
+    common_guided = 0
+
+    def _mentions_cell(e, d=0):
+        if not isinstance(e, tuple) or d > 25:
+            return False
+        if e and e[0] in ("call", "deref", "ref") and _cell(e):
+            return True
+        return any(_mentions_cell(x, d + 1) for x in e if isinstance(x, tuple))
+
     for p in paths:
         if p.end != "loop" or p.end_block != h:
             continue
@@ -389,6 +399,9 @@ def rule_lcs(ck, facts):
                 deltas[l] = o
         # cursor identity: payload symbols
         if kind == "Common":
+            common_paths += 1
+            if any(_mentions_cell(c) for c, v, pos in p.conds):
+                common_guided += 1
             syms = [pl[0] for pl in payload]
             offs = [pl[1] for pl in payload]
             moved = sorted(deltas.items())
@@ -402,6 +415,28 @@ def rule_lcs(ck, facts):
         else:
             ck.bad(R, key, "backtrack: a %s step has payload %s and moves the cursors by %s (expected payload index = cursor-1 and exactly the matching cursor(s) decremented by 1)" % (kind, [(show(s), o) for s, o in payload], deltas), f.where())
     ck.floor(R, "backtrack_iteration_paths", n_iter, 4)
+    # ---- does the walk back follow the table it filled?  The fill step takes the maximum of three moves (the
+    # diagonal may lose against skipping one side); a walk that takes the diagonal whenever the pair scores > 0
+    # contradicts that: it pairs a child with the first similar sibling it meets from the end, even when the table
+    # says that keeping the identical one further left is better.
+    if common_paths:
+        if common_guided == 0:
+            ck.bad(R, "walk|diagonal-ignores-table", "%s fills the table with max(diagonal+score, up, left) but the walk back takes the diagonal whenever the pair scores > 0 without consulting the table: appending a call that merely shares a leading cell with its predecessors (old [A,B] -> new [A,B,X]) pairs B with X and A with B, so the surviving subtrees A and B are not carried over" % f.short, f.where())
+        else:
+            ck.ok(R, "walk|diagonal-follows-table", {"common_paths": common_paths, "guided_by_table": common_guided})
+            # a table-guided walk maximises the score: then the score must grow with what a pairing carries over.
+            # Counting patches gives an unchanged subtree (one patch, whatever its size) less weight than a similar
+            # sibling that shares two separate cells.
+            for g in fns(facts):
+                if g.kind == "promoted":
+                    continue
+                dg = None
+                for b2, st in g.all_stmts():
+                    if st[KIND] == "a" and st[5][0] == "cast" and st[5][1] == "IntToFloat":
+                        dg = dg or DefIndex(g)
+                        r = dg.resolve(st[5][2])
+                        if r[0] == "call" and (callee(r[1]) or "").split("::")[-1] == "len" and "HashSet" in (callee(r[1]) or ""):
+                            ck.bad(R, "score|counts-patches", "%s scores a pairing of children by the number of patches while the walk back now follows the best-scoring path: an unchanged subtree is one patch, a similar sibling sharing two cells is two, so inserting such a sibling in front of an unchanged call re-pairs the call with it and drops its state" % g.short, g.where(st))
     ck.require(R, kinds_seen >= {"Common", "Insert", "Delete"}, "backtrack|kinds", "backtrack does not produce all of Common/Insert/Delete (%s)" % sorted(kinds_seen))
 
 
